@@ -236,6 +236,7 @@ fn e2_channel(tier: Tier, k: usize, ctx: &mut Ctx) {
 		horizon: 300,
 		max_spin_rounds: 8,
 		record_sites: true,
+		..Default::default()
 	};
 	let mut body = |prefix: &[u8]| -> (sched::RunResult, ChanObs) {
 		let (mut w, mut r): (CommandWriter<Payload>, CommandReader<Payload>) = command_writer_and_reader();
@@ -296,6 +297,7 @@ fn e2_two_channels(tier: Tier, ctx: &mut Ctx) {
 		horizon: 400,
 		max_spin_rounds: 8,
 		record_sites: true,
+		..Default::default()
 	};
 	type Obs = (ChanObs, ChanObs);
 	let mut body = |prefix: &[u8]| -> (sched::RunResult, Obs) {
@@ -374,6 +376,7 @@ fn e2_sound_volume(tier: Tier, ctx: &mut Ctx) {
 		horizon: 3000,
 		max_spin_rounds: 8,
 		record_sites: true,
+		..Default::default()
 	};
 	// gains heard in the 3 explored callbacks + 1 epilogue callback
 	type Obs = Vec<f32>;
@@ -463,6 +466,7 @@ fn e2_clock_stop(tier: Tier, ctx: &mut Ctx) {
 		horizon: 3000,
 		max_spin_rounds: 8,
 		record_sites: true,
+		..Default::default()
 	};
 	// after each explored callback: (ticking as published, published ticks, published fraction)
 	type Obs = Vec<(bool, u64, f64)>;
@@ -546,6 +550,7 @@ fn e2_first_callback(tier: Tier, ctx: &mut Ctx) {
 		horizon: 4000,
 		max_spin_rounds: 8,
 		record_sites: true,
+		..Default::default()
 	};
 	type Obs = Vec<f32>;
 	let mut body = |prefix: &[u8]| -> (sched::RunResult, Obs) {
